@@ -3,8 +3,12 @@
    of a slot's header is the slot's header word, claimed-but-unwritten space reads as zero, every
    rendered word of the data area lies inside the index range of its slot, and the trailer words
    are the counters. *)
-Require Import V.Base.MachineInt V.Generated.GenConsts V.Model.LogBase V.Model.Ring V.Spec.Fifo
-               V.Proofs.RingArith.
+Require Import V.Base.MachineInt.
+Require Import V.Generated.GenConsts.
+Require Import V.Model.LogBase.
+Require Import V.Model.Ring.
+Require Import V.Spec.Fifo.
+Require Import V.Proofs.RingArith.
 From Coq Require Import ZifyBool Lia.
 Open Scope Z_scope.
 
